@@ -14,12 +14,68 @@ TRUST = (
 
 # id -> dict(technique, text, design_ref, note) for claimed checks
 CLAIMS: dict[str, dict] = {
+    "C01": dict(
+        technique="symbolic writer∘reader pipeline: abstract interpretation of serializer and parser source on symbolic statements, composite must normalise to the identity",
+        text="Decides a necessary structural condition of the round trip: for every term kind x slot, repeat pattern, enabled/disabled/tight table sizing, framing, entry point and the three generic parsers, "
+        "the real serializer source followed by the real parser source maps a symbolic statement sequence to itself (order, length, duplicates, components; xsd:string == plain). "
+        "Covers quoted triples, generalized positions and paths the suite never executes. Not decided: equality for arbitrary concrete data, protobuf byte fidelity.",
+        design_ref="DESIGN.md §5 C01",
+    ),
+    "C02": dict(
+        technique="symbolic writer∘reader pipeline over a model of rdflib terms/graphs; path rule for graph bracketing; table rule for plugin glue",
+        text="Same composite-is-identity rule for RDFLibTermEncoder/RDFLibAdapter over RDF 1.1 kinds, graph names incl. default graph, store and generator input, flat/grouped/non-delimited framings, three parsers; "
+        "GraphStream.graph brackets every graph; Graph.serialize/Graph.parse glue delivers into the caller's store. Not decided: rdflib's own store order and literal normalisation.",
+        design_ref="DESIGN.md §5 C02",
+    ),
+    "C03": dict(
+        technique="abstract frames emitted by the analysed serializer source are checked by an independent specification state machine (jstat.refdec); typestate/validity rules",
+        text="For ~3000 writer configurations of both integrations (all physical types, presets incl. disabled and tight tables, framings, reused streams, namespaces) the abstract stream is valid Jelly for a decoder that shares "
+        "no code with pyjelly: options first and repeated unchanged, ids within declared sizes and defined earlier, zero forms, complete first statement/quoted triples, row kinds, bracketing, namespace rows only in v2, and it decodes to the input. "
+        "Not decided: byte-level protobuf encoding.",
+        design_ref="DESIGN.md §5 C03",
+    ),
+    "C05": dict(
+        technique="least fixpoint of reachable joint writer/reader lookup states (finite abstract domain up to key renaming) computed through the source of the index rules; ordering enumeration",
+        text="For table sizes 1..4 (quick) / 1..6 (thorough) and each of the three index rules the closed set of reachable (LookupEncoder, LookupDecoder) states is enumerated through the real source; at every transition the emitted entry id + reference "
+        "resolves on the reader to the writer's key, ids lie in [0,size], the writer holds <= size entries. Closure of a finite state space covers histories of any length. Not decided: sizes above the bound (argued by the comparison-only fragment).",
+        design_ref="DESIGN.md §5 C05",
+    ),
     "C06": dict(
         technique="conditional constant propagation over the complete configuration lattice (abstract interpretation of Stream/FrameFlow/entry-point source), final-state rule",
-        text="Decides completely, for every point of the finite lattice {3 stream classes x 8 logical types x delimited x frame sizes x inferred/7 explicit flows x 15 entry points} "
+        text="Decides completely, for every point of the finite lattice {3 stream classes x 8 logical types x delimited x frame sizes x inferred/6 explicit flows x 15 entry points} "
         "with symbolic statements, whether construction raises or every statement row is emitted and the flow is empty when the entry point returns. "
-        "Exhaustive over configurations (what the suite samples 4 of); not decided: that the emitted bytes parse back (C01/C02).",
+        "Exhaustive over configurations (the suite samples a handful); not decided: that the emitted bytes parse back (C01/C02).",
         design_ref="DESIGN.md §5 C06",
+    ),
+    "C08": dict(
+        technique="constant propagation of the detector over a finite header domain; ground truth derived from the protobuf descriptor; position-tracking I/O rule",
+        text="Finite and decided completely: delimited_jelly_hint agrees with the descriptor-derived ground truth on every 3-byte header a valid stream can start with (frame lengths and options-row lengths incl. all 0x0A coincidences, multi-byte varints); "
+        "get_options_and_frames leaves the read position unchanged and routes to length-prefixed vs whole-input parsing.",
+        design_ref="DESIGN.md §5 C08",
+    ),
+    "C09": dict(
+        technique="I/O-contract taint rule on the resolved receiver class of every read-like call on the parser input (abstract interpretation with an io model)",
+        text="The read schedule is the environment's; decided is pyjelly's use of the I/O API for three source classes x both framings x six public parsers: header bytes for the detector must come from an exact-or-EOF read, "
+        "no raw read after wrapping, frames read from a buffered object. One known finding (peek(3) on a wrapped raw source). Not decided: third-party file objects, gzip internals.",
+        design_ref="DESIGN.md §5 C09",
+    ),
+    "C13": dict(
+        technique="constant propagation over finite enums: decision tables extracted from source vs specification tables",
+        text="Finite and decided completely: header field bijection writer->row->reader for all 9 descriptor fields, version rule, all 4x8 physical/logical pairs on construction and parse, size limits on both sides, "
+        "strict-gate tables for both integrations x flat/grouped x 8 logical types, and non-interference of the logical type when strict is off.",
+        design_ref="DESIGN.md §5 C13",
+    ),
+    "C14": dict(
+        technique="symbolic pipeline for namespace bindings (source -> rows -> reference decoder / real reader -> sink -> re-serialise), guard and order rules",
+        text="For both integrations x physical types x sink/grouped/generator input: bound (prefix, IRI) pairs reach the wire, the reader's Prefix events and the sink unchanged and in order, the adapter constructor is applied once, "
+        "re-serialisation is a fixpoint, no rows when the option is off, statements unaffected. Not decided: rdflib's default bindings, eviction interplay on concrete data.",
+        design_ref="DESIGN.md §5 C14",
+    ),
+    "C16": dict(
+        technique="rejection table: one hand-built abstract violating stream per catalogued class pushed through the parser source; every path must raise before delivering anything for the offending row",
+        text="24 violation instances (entry/reference beyond size, never-filled slot, datatype 0 / while disabled, repeated term without previous / in quoted triple, missing options, forbidden row kinds, triple outside graph, unsupported type) "
+        "x both integrations x flat/grouped x single/split frames: must raise, must not deliver fabricated items. Not decided: every position x table state of concrete streams.",
+        design_ref="DESIGN.md §5 C16",
     ),
 }
 
